@@ -84,6 +84,9 @@ def run(tier, seed, replay=None):
             elif ev["e"] == "eend":
                 sig = {"kind": "eend", "footer_ok": ev["footer_ok"]}
                 detail = "file round trip: file %s ended %s" % (ev["file"], ev)
+            elif ev["e"] == "batch":
+                sig = {"kind": "batch", "mode": ev["mode"]}
+                detail = "payloads returned by EncodeDump did not stay what they were (%s): %d of %d no longer decode to their value" % (ev["mode"], ev["bad"], ev["n"])
             else:
                 sig = {"kind": ev["e"]}
                 detail = "loader + ObjEntry on compact encodings: %s" % ev
